@@ -1,7 +1,7 @@
 (** C11: [Inv] is preserved by every step of the op language, hence holds in every reachable
     state. *)
 From RN Require Import Base.Res Base.AMap Base.AMapProofs Naming.Service Naming.ServiceProofs
-  Naming.Filter Naming.Actor Naming.IndexProofs Naming.ActorProofs Naming.Script.
+  Naming.Filter Naming.Actor Naming.IndexProofs Naming.ActorProofs Naming.BudgetProofs Naming.Script.
 Local Open Scope N_scope.
 
 (** the input domain: every instance carried by an op is well-formed ([wf_inst]) *)
@@ -76,6 +76,7 @@ Proof.
   - destruct (get_service_info_page a ns). exact H.
   - exact H.
   - exact H.
+  - apply time_check_budget_inv; auto.
 Qed.
 
 Theorem Inv_reachable : forall c hashf ops t0,
@@ -276,6 +277,8 @@ Proof.
   - exfalso; apply Hm. destruct (get_service_info_page a ns). apply dom_mono_refl.
   - exfalso; apply Hm. apply dom_mono_refl.
   - exfalso; apply Hm. apply dom_mono_refl.
+  - exfalso; apply Hm.
+    eapply dom_mono_map with (f := fun k s => if kvis k (visited c n order a) then fst (fst (tc_svc c (a_now a) s)) else s). reflexivity.
 Qed.
 
 (** ** the observations of the property, read off the invariant *)
